@@ -218,6 +218,9 @@ func (c *Trait) PrepareRead(ctx context.Context, cacheEntry *TraitEntry, found b
 		return nil, ErrNotFound
 	}
 
+	// Expiration is loaded before taking current time, so that expiration set by
+	// concurrent ExpireAll is never in the future (which would make an entry look valid).
+	expireAt := atomic.LoadInt64(&cacheEntry.E)
 	now := ts(time.Now())
 
 	if cacheEntry != nil && c.Config.EvictionStrategy != EvictMostExpired {
@@ -229,7 +232,7 @@ func (c *Trait) PrepareRead(ctx context.Context, cacheEntry *TraitEntry, found b
 		}
 	}
 
-	if e := atomic.LoadInt64(&cacheEntry.E); e != 0 && e < now {
+	if expireAt != 0 && expireAt < now {
 		if c.Log.logDebug != nil {
 			c.Log.logDebug(ctx, "cache key expired", "name", c.Config.Name)
 		}
